@@ -42,6 +42,7 @@ type FuncSpec struct {
 	Flags     map[string]string
 	Lets      []*Clause // Kind holds the bound name
 	Foreach   []*Foreach
+	Asserts   []*AssertSpec
 	ParamNames []string // for interface-method contracts: names of the method's parameters
 	PanicOK   []string  // anchors (substrings) of panic sites this contract allows
 	Extends   string    // name of the contract whose clauses are inherited
@@ -96,7 +97,7 @@ func NewSpecFile() *SpecFile {
 
 var clauseKeywords = map[string]bool{"requires": true, "ensures": true, "invariant": true, "decreases": true,
 	"assigns": true, "loop": true, "may_panic": true, "trusted": true, "pure": true, "abstract": true, "axiom": true,
-	"func": true, "noinline": true, "opaque": true, "flag": true, "let": true, "may_panic_at": true, "extends": true, "foreach_field": true, "ghost": true}
+	"func": true, "noinline": true, "opaque": true, "flag": true, "let": true, "may_panic_at": true, "extends": true, "foreach_field": true, "ghost": true, "assert": true}
 
 // ParseSpecFile reads //@ lines from path and adds them to sf.
 func (sf *SpecFile) ParseSpecFile(path string) error {
@@ -275,6 +276,13 @@ func (sf *SpecFile) ParseSpecFile(path string) error {
 				}
 				curLoop = nil
 				cur.Foreach = append(cur.Foreach, fe)
+			case "assert":
+				a, err := parseAssert(r.text, path, r.line)
+				if err != nil {
+					return fmt.Errorf("%s: %v", loc, err)
+				}
+				curLoop = nil
+				cur.Asserts = append(cur.Asserts, a)
 			case "may_panic_at":
 				cur.PanicOK = append(cur.PanicOK, strings.TrimSpace(r.text))
 			case "extends":
